@@ -54,6 +54,7 @@ CONTRACTS = {
         props=["C05", "C10"],
         params={"self": ANY, "node": OBJ("GraphNode"), "state": OBJ("GraphState"), "inputs": DICT(STR, ANY), "event_processors": ANY, "parent_span_id": OPT(STR)},
         returns=DICT(STR, ANY),
+        requires=["distinct_names(node.outputs)"],   # object-model fact: a node's output names are pairwise distinct
         may_raise={"BaseException": True},
         trace=[{"name": "C05/C10 one inner run (or map) of the wrapped graph by the same runner, on the translated inputs; outputs translated back (lists collected for a mapping node)",
                 "check": nested_delegation}],
@@ -72,6 +73,7 @@ CONTRACTS = {
         props=["C05", "C10", "C14"],
         params={"self": OBJ("AsyncGraphNodeExecutor"), "node": OBJ("GraphNode"), "state": OBJ("GraphState"), "inputs": DICT(STR, ANY), "event_processors": ANY, "parent_span_id": OPT(STR)},
         returns=DICT(STR, ANY),
+        requires=["distinct_names(node.outputs)"],   # object-model fact: a node's output names are pairwise distinct
         may_raise={"BaseException": True},
         trace=[{"name": "C05/C10 one inner run (or map) of the wrapped graph by the same runner, on the translated inputs; the result goes through _handle_nested_result (lists collected for a mapping node)",
                 "check": nested_delegation}],
